@@ -132,6 +132,26 @@ func vfC19h(net int) {
 		vf.Assert(len(after) == 4, "C19.h")
 		vf.Assert(vf.And(vf.And(after["V2"] == node.V2, after["V3"] == node.V3), vf.And(after["V4"] == node.V4, after["V5"] == node.V5)), "C19.h")
 	}
+	// the verdict itself, from the primitives: with a record, the start is accepted iff the node's heights are
+	// non-decreasing, every fork that either side places at or below the best block has the same height on both sides
+	// (a fork the record does not know imposes nothing), and a fork only the record knows (V6) lies above the best block.
+	// Without a record the start is accepted as it is coded (no validation: finding F-C19-1 below).
+	vf.Reach("C19.h.compat")
+	want := true
+	if kind != 0 {
+		nodeV := [4]uint64{node.V2, node.V3, node.V4, node.V5}
+		want = vfMonotone(node)
+		for i := 0; i < nStored; i++ {
+			sv := before[vfHFKeys[i]]
+			if i < 4 {
+				want = vf.And(want, vf.Implies(vf.Or(nodeV[i] <= best, sv <= best), nodeV[i] == sv))
+			} else {
+				want = vf.And(want, sv > best)
+			}
+		}
+	}
+	vf.Assert((err == nil) == want, "C19.h.compat")
+
 	if vfNet == 1 {
 		vf.Assert(*node == *config.MainNetHardforkConfig, "C19.h")
 	} else if vfNet == 2 {
